@@ -449,12 +449,25 @@ def invariant_for(I, ctl, node, env, it, k, spec):
         _assume_invs(I, ctl, spec, env, ghosts)
         if c.branch(i < hi):
             I.assign_target(node.target, SInt(i), env)
+            mark = len(c.fx)
+            broke = False
             try:
                 I.exec_block(node.body, env)
             except BreakSig:
-                return None
+                broke = True
             except ContinueSig:
                 pass
+            if spec.each:
+                b = _inv_bindings(I, ctl, env, {"fx": list(c.fx[mark:]), "broke": broke, "_i": SInt(i)})
+                for cid, lam in spec.each:
+                    names_ = lam.__code__.co_varnames[: lam.__code__.co_argcount]
+                    if any(n_ not in b and n_ != "old" for n_ in names_):
+                        continue
+                    f = eval_clause(I, lam, _select(lam, b), old_view=ctl.old_view())
+                    c.check_obligation(f"{ctl.con.qualname}::loop{k}.each.{cid}", f)
+                c.check_obligation(f"{ctl.con.qualname}::__canary__", False)
+            if broke:
+                return None
             _check_invs(I, ctl, spec, k, env, {"_i": SInt(i + 1)}, "preserved")
             raise PathEnd()
         c.assume(z3.Or(i == hi, z3.And(hi < lo, i == lo)))
